@@ -42,6 +42,12 @@ CHECKS = {
  'C05': dict(level='model_checking', engine='seqmc', technique='exhaustive enumeration of histories (program x tree x mutation x rebuild twice) on the implementation with an effectiveness oracle derived from reference-model trace trees',
    text='For every committed build of the bounded sweep (single-observer functions, sparse level-3 observers, <=2-node skeletons, 3-chains): an unchanged rebuild twice and a rebuild after each single mutation of the alphabet. A call whose previous record was ok without setup failure, whose function versions are equal, whose outputs are untouched and whose from-scratch trace (operations, answers, identities of files read) is identical must not be invoked; outputs of calls that were not re-executed keep inode and mtime; an unchanged rebuild invokes exactly the predicted set (calls that raised or had a setup failure, reached through re-executing callers).',
    note='One-sided: silent when a trace contains an answer the model masks (get_size of a directory, cache-only directory), reads a file built in the same build, or a recorded failed output is displaced by a foreign file. The evidence reports how many calls the oracle actually forbade.', design='4/C05'),
+ 'C06': dict(level='model_checking', engine='seqmc', technique='exhaustive enumeration of call graphs x ordered version pairs, executed on the implementation; invocation logs compared with a prediction from reference-model traces',
+   text='All call graphs with 1-3 nodes (5 forest shapes, subbuild/build_file, explicit function names incl. a shared callee name) x each function x all ordered pairs of a 17-value version domain (absent, None, 0, 1, 1.0, True, "1", lists, key-reordered and growing dicts), with bodies that ignore or mention their version; two functions at once over a 4-value sub-domain; graphs with a caught failing node. History build(V_old), build(V_new), build(V_new): the invocation log after the change equals the prediction (calls of changed functions and their transitive callers; nothing when versions are JSON-equal by the independent canonical form), every build equals the reference model with the new version map, independent calls stay cached.',
+   note='JSON equality of versions is decided by the independent canonical form of C18; bodies depend on their version only up to JSON equality (the documented user obligation).', design='4/C06'),
+ 'C13': dict(level='model_checking', engine='seqmc', technique='exhaustive enumeration of (role, nesting, comparison mode, mutation) combinations executed on the implementation; invocation logs compared with the mode table, results with the reference model',
+   text='Every combination of role {input read, output integrity, output read back by a separate reader with producer/reader comparison modes and fresh/fixed output mtime} x {top-level, nested in a reused subtree} x {METADATA, HASH} x mutation {none, touch, +1 ns, same-size same-mtime content flip, rewrite, size change with same mtime, delete}, on a first and on an already rebuilt cache: HASH re-executes dependents iff bytes differ, METADATA iff size or mtime_ns differ (incl. the asserted non-detection of a same-size same-mtime change), the next unchanged rebuild invokes nothing, results equal the reference model except where the documentation concedes staleness.',
+   note='mtimes are set with os.utime from a logical clock, so every combination is constructible deterministically.', design='4/C13'),
 }
 NOT_YET = {}
 props = [json.loads(l)['id'] for l in open(V + '/properties.jsonl')]
